@@ -288,3 +288,12 @@ pub fn proof(quotes: Vec<(PeerId, PaymentQuote)>) -> ProofOfPayment {
             .collect(),
     }
 }
+
+/// A payee id that does not decode to a PeerId (adversarial proof).
+pub fn undecodable_payee(tag: u8) -> EncodedPeerId {
+    serde_json::from_value(serde_json::json!([0xffu8, tag, 0x00, 0x13, 0x37])).expect("EncodedPeerId from raw bytes")
+}
+
+pub fn proof_raw(peer_quotes: Vec<(EncodedPeerId, PaymentQuote)>) -> ProofOfPayment {
+    ProofOfPayment { peer_quotes }
+}
